@@ -160,10 +160,10 @@ def plan(tier, seed):
 
 def shard(ctx):
     eq = CfgEquiv(ctx, ninputs=ctx.params["ninputs"], end_to_end=True)
-    from ..templates import t_config_flow
+    from ..templates import config_template
 
-    prof = StreamProfile(knobs_fn=knobs, script_len=ctx.params["script_len"], op_weights=weights(), templates=t_config_flow)
-    prof.template_prob = 0.4
+    prof = StreamProfile(knobs_fn=knobs, script_len=ctx.params["script_len"], op_weights=weights(), templates=config_template)
+    prof.template_prob = 0.5
     run_stream(ctx, prof, [eq, CallEqvMonitor(ctx, eq)])
 
 
